@@ -69,6 +69,18 @@ func derefType(rtype reflect.Type) reflect.Type {
 	return rtype
 }
 
+// Get rid of 0 to many levels of pointers to get at the real value. The
+// zero Value is returned when a nil pointer is encountered on the way.
+func derefValue(rvalue reflect.Value) reflect.Value {
+	for rvalue.Kind() == reflect.Ptr {
+		if rvalue.IsNil() {
+			return reflect.Value{}
+		}
+		rvalue = rvalue.Elem()
+	}
+	return rvalue
+}
+
 func doMatchMatches(expression *grammar.MatchExpression, value reflect.Value) (bool, error) {
 	if !value.IsValid() {
 		return false, errors.New("Value is nil and is not convertible to []byte")
@@ -180,9 +192,13 @@ func doMatchIn(expression *grammar.MatchExpression, value reflect.Value) (bool, 
 				return false, errors.New(`unable to find suitable primitive comparison function for "in" comparison`)
 			}
 			for i := 0; i < value.Len(); i++ {
-				item := value.Index(i)
+				item := derefValue(value.Index(i))
+				if !item.IsValid() {
+					// nil elements are equal to nothing
+					continue
+				}
 				// the value will be the correct type as we verified the itemType
-				if eqFn(matchValue, reflect.Indirect(item)) {
+				if eqFn(matchValue, item) {
 					return true, nil
 				}
 			}
